@@ -1,7 +1,7 @@
 (* C15 — table obligations: facts about the source as extracted into Tables.v on this run,
    each discharged by closed computation.  When the source changes shape, exactly the lemma
    naming that shape stops checking. *)
-From G11 Require Import Timeouts TimeoutsCheck.
+From G11 Require Import Timeouts RateLimit TimeoutsCheck.
 Open Scope Z_scope.
 
 (* Serve: no call on the accepted connection between Accept and `go` can wait for the peer *)
@@ -77,3 +77,8 @@ Lemma ob_mitm_replaces_read_deadline : mitm_peek_deadline = true.
 Proof. vm_compute. reflexivity. Qed.
 Lemma ob_pp_awaited_first : pp_early = true.
 Proof. vm_compute. reflexivity. Qed.
+
+(* ratelimit.Conn.Read enters the wrapped Read before anything else: a connection parked there has taken
+   nothing from the listener's shared bucket (hypothesis of T15_parked_peers_hold_no_tokens) *)
+Lemma ob_parked_reader_holds_no_tokens : forall buf, park_cost ratelimit_read_prog buf = 0.
+Proof. apply (park_cost_read_first _ (tl ratelimit_read_prog)). vm_compute. reflexivity. Qed.
